@@ -336,6 +336,9 @@ func (P *Prog) mergeImplements() error {
 			g = P.cs.ByKey[modPath+"."+c.Impl]
 		}
 		if g == nil {
+			g = P.cs.ByKey[modPath+"/"+c.Impl] // "<package name>.<Iface>.<method>" of another clover package
+		}
+		if g == nil {
 			return fmt.Errorf("%s (%s): implements unknown contract %s", c.Key, c.Src, c.Impl)
 		}
 		if err := merge(g, depth+1); err != nil {
@@ -353,6 +356,15 @@ func (P *Prog) mergeImplements() error {
 		c.Ensures = append(append([]*Clause{}, g.Ensures...), c.Ensures...)
 		c.Modifies = append(append([]*Sx{}, g.Modifies...), c.Modifies...)
 		c.ExitUpdates = append(append([][3]*Sx{}, g.ExitUpdates...), c.ExitUpdates...)
+		for _, gg := range g.Ghosts {
+			dup := false
+			for _, cg := range c.Ghosts {
+				dup = dup || cg.Name == gg.Name
+			}
+			if !dup {
+				c.Ghosts = append(c.Ghosts, gg)
+			}
+		}
 		c.HasMod = c.HasMod || g.HasMod
 		c.Uses = append(append([]string{}, g.Uses...), c.Uses...)
 		if len(c.Params) == 0 {
@@ -539,6 +551,48 @@ func (P *Prog) typeByName(name string) types.Type {
 		}
 	}
 	return nil
+}
+
+// typeExpr parses the Go type expressions used in contracts: *T, []T, map[K]T, basic type names,
+// interface{} and pkg.Name (package name or path).
+func (P *Prog) typeExpr(s string) types.Type {
+	switch {
+	case strings.HasPrefix(s, "*"):
+		if e := P.typeExpr(s[1:]); e != nil {
+			return types.NewPointer(e)
+		}
+		return nil
+	case strings.HasPrefix(s, "[]"):
+		if e := P.typeExpr(s[2:]); e != nil {
+			return types.NewSlice(e)
+		}
+		return nil
+	case strings.HasPrefix(s, "map["):
+		depth := 0
+		for i := 3; i < len(s); i++ {
+			if s[i] == '[' {
+				depth++
+			} else if s[i] == ']' {
+				depth--
+				if depth == 0 {
+					k, v := P.typeExpr(s[4:i]), P.typeExpr(s[i+1:])
+					if k != nil && v != nil {
+						return types.NewMap(k, v)
+					}
+					return nil
+				}
+			}
+		}
+		return nil
+	case s == "interface{}" || s == "any":
+		return types.NewInterfaceType(nil, nil)
+	}
+	if o := types.Universe.Lookup(s); o != nil {
+		if tn, ok := o.(*types.TypeName); ok {
+			return tn.Type()
+		}
+	}
+	return P.typeByName(s)
 }
 
 // scanFinalCaptures: a captured variable is "effectively final" when its cell is written once in the
